@@ -575,6 +575,7 @@ func famHeap(dir string, seed int64, tier string) {
 	}
 	apiVeryLongChain(rep, "C18")
 	apiCyclesThroughMarshalers(rep)
+	apiCyclesThroughNestedStreams(rep)
 	apiKeysNaNAndCycles(rep, "C18")
 	// cycles and chains through slices / maps of ARRAYS (Go-side oracles only: arrays are not in the heap model)
 	for _, n := range []int{1, 2, 3, 1001} {
